@@ -203,6 +203,10 @@ theorem stepOp_ok (st : St) (hs : StOk st) (op : Op) (hop : InContract op) :
     refine ⟨hs, ?_⟩
     simp only [stepOp]
     split <;> trivial
+  | bigd a n seed =>
+    refine ⟨hs, ?_⟩
+    simp only [stepOp]
+    split <;> trivial
   | crc b => exact ⟨hs, CrcMain.model_eq_spec b⟩
   | crcinit =>
     refine ⟨⟨hs.s256, hs.s1, hs.s5, ?_⟩, trivial⟩
@@ -343,6 +347,7 @@ theorem stepOp_forged (st : St) (op : Op) (a : AlgId) (hop : ∀ k, op ≠ .slot
   | pbkdf2 P S c dk => exact hs
   | pbkdf2sum P S c dk => exact hs
   | big n cut => exact hs
+  | bigd a n seed => exact hs
   | crc b => exact hs
   | crcinit => exact hs
   | crcupd b => unfold stepOp; cases st.crc <;> exact hs
@@ -358,5 +363,59 @@ theorem runOps_forged (ops : List Op) (st : St) (a : AlgId) (hops : ∀ k, Op.sl
     · intro k hk; exact hops k (List.mem_cons_of_mem _ hk)
     · apply stepOp_forged _ _ _ _ hs
       intro k hk; exact hops k (hk ▸ List.mem_cons_self ..)
+
+/-! ## `bigd`: the streamed pattern -/
+
+/-- the chunks cover the pattern: bytes `off ‥ off+rest` when the fuel is enough -/
+theorem patChunks_flatten (seed : Nat) (k off rest : Nat) (h : rest ≤ k * bigdChunk) :
+    (patChunks seed k off rest).flatten = (List.range' off rest).map (patByte seed) := by
+  induction k generalizing off rest with
+  | zero =>
+    have : rest = 0 := by omega
+    subst this
+    rfl
+  | succ k ih =>
+    have hl : min bigdChunk rest ≤ rest := Nat.min_le_right _ _
+    have hr : rest - min bigdChunk rest ≤ k * bigdChunk := by
+      rw [Nat.succ_mul] at h
+      omega
+    simp only [patChunks, List.flatten_cons, ih _ _ hr, patChunk, ← List.map_append]
+    congr 1
+    rw [List.range'_append_1]
+    congr 1
+    omega
+
+theorem le_nChunks_mul (n : Nat) : n ≤ nChunks n * bigdChunk := by
+  unfold nChunks bigdChunk
+  omega
+
+/-- the message of `bigd`: byte `i` is `patByte seed i`, for `i < n` -/
+theorem pattern_eq_map (n seed : Nat) : pattern n seed = (List.range n).map (patByte seed) := by
+  rw [pattern, patChunks_flatten seed _ 0 n (le_nChunks_mul n), List.range_eq_range']
+
+theorem pattern_length (n seed : Nat) : (pattern n seed).length = n := by
+  simp [pattern_eq_map]
+
+/-- making the chunks on the fly is folding `_Update` over the chunk list -/
+theorem feedPattern_eq_foldl (f : Fam) (seed : Nat) (k off rest : Nat) (c : Hash.Ctx f.h.alg) :
+    f.feedPattern seed k off rest c = (patChunks seed k off rest).foldl f.update c := by
+  induction k generalizing off rest c with
+  | zero => rfl
+  | succ k ih => simp only [Fam.feedPattern, patChunks, List.foldl_cons, ih]
+
+include fo in
+/-- the digest `bigd` prints is the specified digest of the pattern -/
+theorem bigd_spec (n seed : Nat) : f.bigd n seed = f.spec (pattern n seed) := by
+  rw [Fam.bigd, feedPattern_eq_foldl]
+  exact final_spec fo _ _ ⟨patChunks seed (nChunks n) 0 n, rfl, rfl⟩
+
+theorem fam_spec (a : AlgId) : a.fam.spec = a.spec := by cases a <;> rfl
+
+theorem alg_bigd_spec (a : AlgId) (n seed : Nat) : a.fam.bigd n seed = a.spec (pattern n seed) := by
+  rw [← fam_spec]
+  cases a
+  · exact bigd_spec ok256 n seed
+  · exact bigd_spec ok1 n seed
+  · exact bigd_spec ok5 n seed
 
 end Percival.Proofs.HashStep
